@@ -1,4 +1,5 @@
 import FM.Lemmas.FsMachine
+import FM.Lemmas.Route
 /-
   C14 — In-place formatting never leaves a damaged or half-written file.
 
@@ -180,5 +181,49 @@ example : Whole (exec (fun p => if p = 1 then some [9, 9] else none)
     ((Job.ops { target := 1, tmp := 2, orig := 3, backup := true, old := [9, 9], chunks := [[7], [8]] }).take 4))
     { target := 1, tmp := 2, orig := 3, backup := true, old := [9, 9], chunks := [[7], [8]] } := by
   right; right; decide
+
+/-! ### which files a run may write at all (model `FM/Model/Route.lean`, tied by op `route`) -/
+section Routing
+open FM.Route
+
+/-- ROUTE_INPUT_UNTOUCHED ("the input file is never touched unless --inplace is given"): without `--inplace`
+the only file a run writes is the output path. -/
+theorem ROUTE_INPUT_UNTOUCHED (files : List Arg) (output : Out) (nobackup : Bool) (acts : List Action)
+    (h : reformatFiles files output false nobackup = .ok acts) :
+    ∀ a ∈ acts, ∀ t, a.target? = some t → output = .path t := by
+  unfold reformatFiles at h
+  by_cases h1 : files = [.stdin]
+  · subst h1
+    cases output <;> simp [reformatFile, Except.map] at h <;> subst h <;> simp [Action.target?]
+  · simp only [h1, if_false, Bool.false_and, Bool.false_eq_true, Bool.not_false, Bool.true_and] at h
+    split at h
+    · cases h
+    · have : acts = files.map .toStdout := by simpa using h.symm
+      subst this
+      intro a ha t ht
+      obtain ⟨f, _, rfl⟩ := List.mem_map.1 ha
+      simp [Action.target?] at ht
+
+/-- ROUTE_TARGETS_DISTINCT: an in-place run writes no target twice, however the arguments repeat a file — so the
+jobs of `MULTI` have pairwise distinct targets (its hypothesis on the *backup* names remains: known finding
+C14-backup-name-is-another-argument). -/
+theorem ROUTE_TARGETS_DISTINCT (files : List Arg) (output : Out) (nobackup : Bool) (acts : List Action)
+    (h : reformatFiles files output true nobackup = .ok acts) :
+    (acts.filterMap Action.target?).Nodup := by
+  unfold reformatFiles at h
+  by_cases h1 : files = [.stdin]
+  · subst h1; simp [reformatFile, Except.map] at h
+  · simp only [h1, if_false, Bool.true_and] at h
+    split at h
+    · cases h
+    · simp only [Bool.not_true, Bool.false_and, Bool.false_eq_true, if_false, if_true] at h
+      cases h
+      exact inplaceLoop_nodup nobackup files []
+
+/-- the repaired regression: a file named twice is one job, not two (the second would move the formatted file
+over the backup of the original). -/
+example : reformatFiles [.file 0, .file 0] .none true false = .ok [.toFile (.file 0) 0 true] := by rfl
+
+end Routing
 
 end FM.C14
